@@ -104,3 +104,7 @@ def run_corpus(chk, pid: str, mutants: List[dict]):
             if not ok:
                 chk.error(f"self-validation: behaviour-preserving twin '{m['name']}' made the check fail (exit {code}): {out[:300]}")
     chk.notes["self_validation"] = {"break_mutants_fired": fired, "twins_silent": silent, "not_applicable": na, "details": details}
+    if na:
+        # never a failure of the property (the verdict is about /repo's tree), but worth a line: the corpus entry is stale
+        print(f"NOTE property={pid} self-validation: {na} corpus edit(s) no longer apply to the current tree and were skipped: "
+              + "; ".join(d["mutant"] for d in details if "skipped" in d["result"]))
